@@ -746,6 +746,7 @@ def run_world(ctx, world, workdir):
                      "region": str(region.location), "mode": mode, "added": str(marker.location)}
             filename = os.path.join(workdir, "region-second-write.gbk")
             try:
+                region.write_to_genbank(filename=filename)      # (nothing else is written between the two writes)
                 record.add_feature(marker)
                 region.write_to_genbank(filename=filename)
                 file_bio = SeqIO.read(filename, "genbank")
